@@ -1,10 +1,1338 @@
 /-
-  MdModel.Json — placeholder (model not written yet).
+  MdModel.Json — model of the JSON report of `minidump-processor`
+    * `ProcessState::print_json`            (minidump-processor/src/process_state.rs:877-1185)
+    * `json_registers`                      (process_state.rs:512-530)
+    * `Address` Display / thread-local pointer width (process_state.rs:20-74, 1180-1184)
+    * `serde_json` (1.0.140, no `preserve_order`: objects are `BTreeMap`s, keys in byte order):
+      the compact writer and its string escaping — re-implemented, tied by correspondence
+    * `minidump_common::utils::basename`, `Os::long_name`, `Cpu` Display / `pointer_width`,
+      `SystemInfo::format_os_version`, `CpuContext::format_register`
+    * json-schema.md, transcribed into `schema` (ONE place) and decided by `Conforms`.
+  Leaves that are *not* modelled (crash-reason text, debug/code identifiers, module version,
+  the shortest-round-trip float text of `confidence`) enter the state model as already rendered
+  values; the harness obtains them by calling the real leaf function.
 -/
 import MdModel.Prelude
 namespace MdModel.Json
+open MdModel
+
+/-! ## 1. digits -/
+
+/-- digit `d < 16` as a lower-case character -/
+def digitChar (d : Nat) : Char := Proto.hexNibble d
+
+/-- Positional digits of `n` in base `b` (most significant first, no leading zero, `0 ↦ "0"`):
+    what `itoa` (b = 10) and `{:x}` (b = 16) print. -/
+def digitsB (b n : Nat) : List Char :=
+  if h : n < b ∨ b < 2 then [digitChar n] else digitsB b (n / b) ++ [digitChar (n % b)]
+termination_by n
+decreasing_by
+  have h1 : ¬ n < b := fun x => h (Or.inl x)
+  have h2 : ¬ b < 2 := fun x => h (Or.inr x)
+  exact Nat.div_lt_self (by omega) (by omega)
+
+def natDigits (n : Nat) : List Char := digitsB 10 n
+def hexDigits (n : Nat) : List Char := digitsB 16 n
+
+def isDigit (c : Char) : Bool := 48 ≤ c.toNat && c.toNat ≤ 57
+def decVal (c : Char) : Nat := c.toNat - 48
+/-- value of a lower-case hex digit character (anything else ↦ 0; guarded by `isHexLower`) -/
+def hexVal (c : Char) : Nat := if isDigit c then c.toNat - 48 else c.toNat - 87
+def isHexLower (c : Char) : Bool := isDigit c || (97 ≤ c.toNat && c.toNat ≤ 102)
+def isHexAny (c : Char) : Bool := isHexLower c || (65 ≤ c.toNat && c.toNat ≤ 70)
+def hexValAny (c : Char) : Nat :=
+  if isDigit c then c.toNat - 48 else if 97 ≤ c.toNat then c.toNat - 87 else c.toNat - 55
+
+def valB (b : Nat) (dv : Char → Nat) (ds : List Char) : Nat := ds.foldl (fun a c => a * b + dv c) 0
+def decValue (ds : List Char) : Nat := valB 10 decVal ds
+def hexValue (ds : List Char) : Nat := valB 16 hexVal ds
+
+/-! ## 2. JSON values, the compact renderer -/
+
+/-- A JSON number token in serde_json/ryu's canonical spelling:
+    `-`? int (`.` frac)? (`e` `-`? exp)?  -/
+structure JNum where
+  neg : Bool
+  int : Nat
+  frac : List (Fin 10)
+  exp : Option (Bool × Nat)
+  deriving DecidableEq, Repr, Inhabited
+
+def JNum.ofNat (n : Nat) : JNum := ⟨false, n, [], none⟩
+
+inductive Json where
+  | null
+  | bool (b : Bool)
+  | num (n : JNum)
+  | str (s : String)
+  | arr (xs : List Json)
+  | obj (kvs : List (String × Json))
+  deriving Repr, Inhabited
+
+abbrev Json.nat (n : Nat) : Json := .num (JNum.ofNat n)
+
+mutual
+def Json.beq : Json → Json → Bool
+  | .null, .null => true
+  | .bool a, .bool b => a == b
+  | .num a, .num b => a == b
+  | .str a, .str b => a == b
+  | .arr a, .arr b => Json.beqL a b
+  | .obj a, .obj b => Json.beqF a b
+  | _, _ => false
+def Json.beqL : List Json → List Json → Bool
+  | [], [] => true
+  | x :: xs, y :: ys => Json.beq x y && Json.beqL xs ys
+  | _, _ => false
+def Json.beqF : List (String × Json) → List (String × Json) → Bool
+  | [], [] => true
+  | (k, x) :: xs, (l, y) :: ys => k == l && Json.beq x y && Json.beqF xs ys
+  | _, _ => false
+end
+
+/-- serde_json `format_escaped_str_contents`: `\" \\ \b \f \n \r \t`, `\u00XX` for the other
+    controls below 0x20, everything else (incl. 0x7f and all non-ASCII) raw. -/
+def escChar (c : Char) : List Char :=
+  if c = '"' then ['\\', '"']
+  else if c = '\\' then ['\\', '\\']
+  else if c.toNat = 8 then ['\\', 'b']
+  else if c.toNat = 12 then ['\\', 'f']
+  else if c.toNat = 10 then ['\\', 'n']
+  else if c.toNat = 13 then ['\\', 'r']
+  else if c.toNat = 9 then ['\\', 't']
+  else if c.toNat < 32 then ['\\', 'u', '0', '0', digitChar (c.toNat / 16), digitChar (c.toNat % 16)]
+  else [c]
+
+def renderStr (s : String) : List Char := '"' :: (s.toList.flatMap escChar ++ ['"'])
+
+def fracChar (d : Fin 10) : Char := digitChar d.val
+
+def renderNum (n : JNum) : List Char :=
+  (if n.neg then ['-'] else []) ++ natDigits n.int ++
+  (if n.frac = [] then [] else '.' :: n.frac.map fracChar) ++
+  (match n.exp with
+   | none => []
+   | some (neg, e) => 'e' :: ((if neg then ['-'] else []) ++ natDigits e))
+
+mutual
+/-- `serde_json::to_writer` (CompactFormatter). -/
+def render : Json → List Char
+  | .null => ['n', 'u', 'l', 'l']
+  | .bool true => ['t', 'r', 'u', 'e']
+  | .bool false => ['f', 'a', 'l', 's', 'e']
+  | .num n => renderNum n
+  | .str s => renderStr s
+  | .arr [] => ['[', ']']
+  | .arr (x :: xs) => '[' :: (render x ++ renderTail xs)
+  | .obj [] => ['{', '}']
+  | .obj ((k, v) :: kvs) => '{' :: (renderStr k ++ ':' :: (render v ++ renderFTail kvs))
+/-- the remaining elements of an array, each preceded by `,`, then `]` -/
+def renderTail : List Json → List Char
+  | [] => [']']
+  | x :: xs => ',' :: (render x ++ renderTail xs)
+/-- the remaining members of an object, each preceded by `,`, then `}` -/
+def renderFTail : List (String × Json) → List Char
+  | [] => ['}']
+  | (k, v) :: kvs => ',' :: (renderStr k ++ ':' :: (render v ++ renderFTail kvs))
+end
+
+/-- the bytes written: UTF-8 of the rendered characters (valid UTF-8 by construction) -/
+def renderBytes (j : Json) : ByteArray := (String.ofList (render j)).toUTF8
+
+/-! ## 3. parser (RFC 8259; strict: no leading zeros, no raw controls in strings, no lone
+    surrogates, nothing but white space after the value) -/
+
+def isWs (c : Char) : Bool := c.toNat = 32 || c.toNat = 9 || c.toNat = 10 || c.toNat = 13
+def skipWs (cs : List Char) : List Char := cs.dropWhile isWs
+
+def unescSimple (e : Char) : Option Char :=
+  if e = '"' then some '"' else if e = '\\' then some '\\' else if e = '/' then some '/'
+  else if e = 'b' then some (Char.ofNat 8) else if e = 'f' then some (Char.ofNat 12)
+  else if e = 'n' then some (Char.ofNat 10) else if e = 'r' then some (Char.ofNat 13)
+  else if e = 't' then some (Char.ofNat 9) else none
+
+def hex4 (a b c d : Char) : Option Nat :=
+  if isHexAny a && isHexAny b && isHexAny c && isHexAny d then
+    some (((hexValAny a * 16 + hexValAny b) * 16 + hexValAny c) * 16 + hexValAny d)
+  else none
+
+/-- after `\u`: four hex digits, a high surrogate must be followed by `\uDC00..DFFF` -/
+def parseU (r2 : List Char) : Option (Char × List Char) :=
+  match r2 with
+  | a :: b :: c :: d :: r3 =>
+    match hex4 a b c d with
+    | none => none
+    | some h =>
+      if 0xD800 ≤ h ∧ h < 0xDC00 then
+        match r3 with
+        | bs :: u :: a2 :: b2 :: c2 :: d2 :: r4 =>
+          if bs = '\\' ∧ u = 'u' then
+            match hex4 a2 b2 c2 d2 with
+            | none => none
+            | some l =>
+              if 0xDC00 ≤ l ∧ l < 0xE000 then
+                some (Char.ofNat (0x10000 + (h - 0xD800) * 0x400 + (l - 0xDC00)), r4)
+              else none
+          else none
+        | _ => none
+      else if 0xDC00 ≤ h ∧ h < 0xE000 then none
+      else some (Char.ofNat h, r3)
+  | _ => none
+
+/-- after a backslash -/
+def parseEscape (r : List Char) : Option (Char × List Char) :=
+  match r with
+  | [] => none
+  | e :: r2 =>
+    if e = 'u' then parseU r2
+    else
+      match unescSimple e with
+      | some ch => some (ch, r2)
+      | none => none
+
+/-- after the opening quote: characters up to the closing quote, unescaped; `acc` reversed.
+    One unit of fuel per character read (`parseStr` supplies the input length). -/
+def parseStrBody : Nat → List Char → List Char → Option (String × List Char)
+  | 0, _, _ => none
+  | fuel + 1, cs, acc =>
+    match cs with
+    | [] => none
+    | c :: r =>
+      if c = '"' then some (String.ofList acc.reverse, r)
+      else if c = '\\' then
+        match parseEscape r with
+        | some (ch, r') => parseStrBody fuel r' (ch :: acc)
+        | none => none
+      else if c.toNat < 32 then none
+      else parseStrBody fuel r (c :: acc)
+
+def parseStr (r : List Char) : Option (String × List Char) := parseStrBody r.length r []
+
+def toFin10 (c : Char) : Fin 10 := ⟨(c.toNat - 48) % 10, Nat.mod_lt _ (by decide)⟩
+
+/-- optional fraction: `.` and at least one digit -/
+def parseFrac (r1 : List Char) : Option (List Char × List Char) :=
+  match r1 with
+  | [] => some ([], [])
+  | c :: r =>
+    if c = '.' then
+      let fd := r.takeWhile isDigit
+      if fd = [] then none else some (fd, r.dropWhile isDigit)
+    else some ([], c :: r)
+
+/-- optional exponent: `e`/`E`, optional sign, at least one digit -/
+def parseExp (r2 : List Char) : Option (Option (Bool × Nat) × List Char) :=
+  match r2 with
+  | [] => some (none, [])
+  | e :: r =>
+    if e = 'e' ∨ e = 'E' then
+      let eneg := r.head? = some '-'
+      let r' := if eneg ∨ r.head? = some '+' then r.drop 1 else r
+      let ed := r'.takeWhile isDigit
+      if ed = [] then none else some (some (eneg, decValue ed), r'.dropWhile isDigit)
+    else some (none, e :: r)
+
+/-- `cs` starts at the first character of the number (`-` or a digit) -/
+def parseNum (cs : List Char) : Option (JNum × List Char) :=
+  let neg := cs.head? = some '-'
+  let cs1 := if neg then cs.drop 1 else cs
+  let ip := cs1.takeWhile isDigit
+  let r1 := cs1.dropWhile isDigit
+  if ip = [] then none
+  else if ip.head? = some '0' ∧ ip.length > 1 then none
+  else
+    match parseFrac r1 with
+    | none => none
+    | some (fd, r2) =>
+      match parseExp r2 with
+      | none => none
+      | some (e, r3) => some (⟨neg, decValue ip, fd.map toFin10, e⟩, r3)
+
+mutual
+/-- one JSON value (leading white space allowed); `fuel` bounds nesting + element count -/
+def parseValue : Nat → List Char → Option (Json × List Char)
+  | 0, _ => none
+  | fuel + 1, cs =>
+    match skipWs cs with
+    | [] => none
+    | c :: r =>
+      if c = '"' then
+        match parseStr r with
+        | some (s, r') => some (.str s, r')
+        | none => none
+      else if c = '[' then
+        match skipWs r with
+        | [] => none
+        | c2 :: r2 => if c2 = ']' then some (.arr [], r2) else parseElems fuel (c2 :: r2) []
+      else if c = '{' then
+        match skipWs r with
+        | [] => none
+        | c2 :: r2 => if c2 = '}' then some (.obj [], r2) else parseMembers fuel (c2 :: r2) []
+      else if c = 'n' then
+        match r with
+        | 'u' :: 'l' :: 'l' :: r' => some (.null, r')
+        | _ => none
+      else if c = 't' then
+        match r with
+        | 'r' :: 'u' :: 'e' :: r' => some (.bool true, r')
+        | _ => none
+      else if c = 'f' then
+        match r with
+        | 'a' :: 'l' :: 's' :: 'e' :: r' => some (.bool false, r')
+        | _ => none
+      else if c = '-' ∨ isDigit c then
+        match parseNum (c :: r) with
+        | some (n, r') => some (.num n, r')
+        | none => none
+      else none
+/-- elements of a non-empty array, `acc` reversed -/
+def parseElems : Nat → List Char → List Json → Option (Json × List Char)
+  | 0, _, _ => none
+  | fuel + 1, cs, acc =>
+    match parseValue fuel cs with
+    | none => none
+    | some (v, r) =>
+      match skipWs r with
+      | [] => none
+      | c :: r2 =>
+        if c = ',' then parseElems fuel r2 (v :: acc)
+        else if c = ']' then some (.arr (v :: acc).reverse, r2)
+        else none
+/-- members of a non-empty object, `acc` reversed -/
+def parseMembers : Nat → List Char → List (String × Json) → Option (Json × List Char)
+  | 0, _, _ => none
+  | fuel + 1, cs, acc =>
+    match skipWs cs with
+    | [] => none
+    | q :: r0 =>
+      if q = '"' then
+        match parseStr r0 with
+        | none => none
+        | some (k, r1) =>
+          match skipWs r1 with
+          | [] => none
+          | col :: r2 =>
+            if col = ':' then
+              match parseValue fuel r2 with
+              | none => none
+              | some (v, r3) =>
+                match skipWs r3 with
+                | [] => none
+                | c :: r4 =>
+                  if c = ',' then parseMembers fuel r4 ((k, v) :: acc)
+                  else if c = '}' then some (.obj ((k, v) :: acc).reverse, r4)
+                  else none
+            else none
+      else none
+end
+
+/-- a whole document -/
+def parse (cs : List Char) : Option Json :=
+  match parseValue (cs.length + 1) cs with
+  | some (j, r) => if skipWs r = [] then some j else none
+  | none => none
+
+/-- bytes → value: UTF-8 validation, then `parse` -/
+def parseBytes (bs : ByteArray) : Option Json :=
+  match String.fromUTF8? bs with
+  | none => none
+  | some s => parse s.toList
+
+/-! ## 4. objects as key-sorted association lists (`BTreeMap<String, Value>`) -/
+
+/-- `Map::insert`: replace an equal key, else insert in key order. -/
+def insertKV (k : String) (v : Json) : List (String × Json) → List (String × Json)
+  | [] => [(k, v)]
+  | (k', v') :: rest =>
+    if k = k' then (k, v) :: rest
+    else if k < k' then (k, v) :: (k', v') :: rest
+    else (k', v') :: insertKV k v rest
+
+def getKV (k : String) : List (String × Json) → Option Json
+  | [] => none
+  | (k', v) :: rest => if k = k' then some v else getKV k rest
+
+/-- `json!({ k: v, … })` -/
+def mkObj (kvs : List (String × Json)) : Json :=
+  .obj (kvs.foldl (fun m kv => insertKV kv.1 kv.2 m) [])
+
+def Json.get (k : String) : Json → Option Json
+  | .obj m => getKV k m
+  | _ => none
+
+def optJ {α : Type} (f : α → Json) : Option α → Json
+  | none => .null
+  | some a => f a
+
+/-! ## 5. hex strings -/
+
+inductive PW where
+  | b32 | b64 | unknown
+  deriving DecidableEq, Repr, Inhabited
+
+def padLeft (w : Nat) (ds : List Char) : List Char := List.replicate (w - ds.length) '0' ++ ds
+
+/-- `format!("0x{:0w$x}", v)` -/
+def hexPad (w v : Nat) : String := String.ofList ('0' :: 'x' :: padLeft w (hexDigits v))
+
+def PW.digits : PW → Nat
+  | .b32 => 8
+  | _ => 16
+
+/-- `Address` Display: `{:#010x}` on 32-bit platforms, `{:#018x}` otherwise (incl. unknown). -/
+def hexAddr (pw : PW) (v : Nat) : String := hexPad pw.digits v
+
+/-- inverse, used by `hex_roundtrip`: the number after the `0x` prefix -/
+def parseHexStr (s : String) : Option Nat :=
+  match s.toList with
+  | '0' :: 'x' :: ds => if ds ≠ [] ∧ ds.all isHexLower then some (hexValue ds) else none
+  | _ => none
+
+/-! ## 6. the state model (what `print_json` reads from a `ProcessState`) -/
+
+inductive Os where
+  | windows | macos | ios | linux | solaris | android | ps3 | nacl
+  | unknown (id : Nat)
+  deriving DecidableEq, Repr, Inhabited
+
+inductive Cpu where
+  | x86 | amd64 | ppc | ppc64 | sparc | arm | arm64 | mips | mips64 | unknown
+  deriving DecidableEq, Repr, Inhabited
+
+/-- `Os::long_name` (minidump/src/system_info.rs:49-61). NB the unknown arm is
+    `format!("0x{val:#08x}")`: a doubled prefix. -/
+def Os.longName : Os → String
+  | .windows => "Windows NT" | .macos => "Mac OS X" | .ios => "iOS" | .linux => "Linux"
+  | .solaris => "Solaris" | .android => "Android" | .ps3 => "PS3" | .nacl => "NaCl"
+  | .unknown v => "0x" ++ hexPad 6 v
+
+def Cpu.name : Cpu → String
+  | .x86 => "x86" | .amd64 => "amd64" | .ppc => "ppc" | .ppc64 => "ppc64" | .sparc => "sparc"
+  | .arm => "arm" | .arm64 => "arm64" | .mips => "mips" | .mips64 => "mips64" | .unknown => "unknown"
+
+def Cpu.pw : Cpu → PW
+  | .x86 | .ppc | .sparc | .arm | .mips => .b32
+  | .amd64 | .ppc64 | .arm64 | .mips64 => .b64
+  | .unknown => .unknown
+
+structure SysInfo where
+  os : Os
+  osVersion : Option String
+  osBuild : Option String
+  cpu : Cpu
+  cpuInfo : Option String
+  cpuCount : Nat
+  microcode : Option Nat
+  deriving Repr, Inhabited
+
+/-- `SystemInfo::format_os_version` -/
+def SysInfo.osVer (s : SysInfo) : Option String :=
+  match s.osVersion, s.osBuild with
+  | some v, some b => some (v ++ " " ++ b)
+  | some v, none => some v
+  | none, some b => some b
+  | none, none => none
+
+inductive Adjusted where
+  | nonCanonical (a : Nat)
+  | nullOffset (o : Nat)
+  deriving Repr, Inhabited
+
+inductive AccessType where
+  | read | write | readWrite | underivable
+  deriving DecidableEq, Repr, Inhabited
+
+structure MemAccess where
+  address : Nat
+  size : Option Nat
+  guard : Bool
+  ty : AccessType
+  deriving Repr, Inhabited
+
+inductive IpUpdate where
+  | update (addr : Nat) (guard : Bool)
+  | noUpdate
+  deriving Repr, Inhabited
+
+structure BitFlip where
+  address : Nat
+  sourceRegister : Option String
+  wasNonCanonical : Bool
+  isNull : Bool
+  wasLow : Bool
+  nearby : Nat
+  poison : Bool
+  /-- external leaf: serde_json's text for the `f32` (as a number token) -/
+  confidence : Option JNum
+  deriving Repr, Inhabited
+
+inductive Inconsistency where
+  | intDivByZeroNotPossible | privInstructionCrashWithoutPrivInstruction
+  | nonCanonicalAddressFalselyReported | accessViolationWhenAccessAllowed
+  | crashingAccessNotFoundInMemoryAccesses
+  deriving DecidableEq, Repr, Inhabited
+
+def Inconsistency.name : Inconsistency → String
+  | .intDivByZeroNotPossible => "int_div_by_zero_not_possible"
+  | .privInstructionCrashWithoutPrivInstruction => "priv_instruction_crash_without_priv_instruction"
+  | .nonCanonicalAddressFalselyReported => "non_canonical_address_falsely_reported"
+  | .accessViolationWhenAccessAllowed => "access_violation_when_access_allowed"
+  | .crashingAccessNotFoundInMemoryAccesses => "crashing_access_not_found_in_memory_accesses"
+
+structure ExcInfo where
+  /-- external leaf: `CrashReason` Display -/
+  reason : String
+  address : Nat
+  adjusted : Option Adjusted
+  instruction : Option String
+  memAccesses : Option (List MemAccess)
+  ipUpdate : Option IpUpdate
+  bitFlips : List BitFlip
+  inconsistencies : List Inconsistency
+  deriving Repr, Inhabited
+
+structure Lsb where
+  id : String
+  release : String
+  codename : String
+  description : String
+  deriving Repr, Inhabited
+
+inductive Limit where
+  | err | unlimited | limited (n : Nat)
+  deriving Repr, Inhabited
+
+structure ProcLimit where
+  name : String
+  soft : Limit
+  hard : Limit
+  unit : String
+  deriving Repr, Inhabited
+
+structure MacRecord where
+  thread : Option Nat
+  dialogMode : Option Nat
+  abortCause : Option Nat
+  modulePath : Option String
+  message : Option String
+  signature : Option String
+  backtrace : Option String
+  message2 : Option String
+  deriving Repr, Inhabited
+
+structure ModuleM where
+  base : Nat
+  size : Nat
+  name : String
+  /-- external leaves: `debug_file()`, `debug_identifier().unwrap_or_default().breakpad()`,
+      `code_identifier().unwrap_or_default()`, `version()` -/
+  debugFile : Option String
+  debugId : String
+  codeId : String
+  version : Option String
+  deriving Repr, Inhabited
+
+structure Stats where
+  url : Option String
+  loaded : Bool
+  corrupt : Bool
+  /-- `extra_debug_info`: (debug_file, breakpad text of the debug id [external leaf]) -/
+  extra : Option (String × String)
+  deriving Repr, Inhabited
+
+structure InlineM where
+  function : String
+  file : Option String
+  line : Option Nat
+  deriving Repr, Inhabited
+
+inductive Trust where
+  | none | scan | cfiScan | framePointer | cfi | preWalked | context
+  deriving DecidableEq, Repr, Inhabited
+
+/-- `FrameTrust::as_str` (minidump-unwind/src/lib.rs:88-98) — `None` is spelled "non" there. -/
+def Trust.name : Trust → String
+  | .context => "context" | .preWalked => "prewalked" | .cfi => "cfi" | .cfiScan => "cfi_scan"
+  | .framePointer => "frame_pointer" | .scan => "scan" | .none => "non"
+
+/-- what `json_registers` reads from a context -/
+structure RegCtx where
+  /-- `size_of::<Register>()` of the context type -/
+  regSize : Nat
+  /-- `general_purpose_registers()` with `get_register_always` -/
+  gpr : List (String × Nat)
+  /-- `MinidumpContextValidity`: `none` = `All`, `some names` = `Some(set)` -/
+  valid : Option (List String)
+  deriving Repr, Inhabited
+
+structure FrameM where
+  instruction : Nat
+  /-- (`module.name`, `module.raw.base_of_image`) -/
+  module : Option (String × Nat)
+  /-- `BTreeMap<String, BTreeSet<u64>>` in iteration order -/
+  unloaded : List (String × List Nat)
+  functionName : Option String
+  functionBase : Option Nat
+  sourceFile : Option String
+  sourceLine : Option Nat
+  inlines : List InlineM
+  trust : Trust
+  ctx : RegCtx
+  deriving Repr, Inhabited
+
+structure ThreadM where
+  frames : List FrameM
+  threadId : Nat
+  threadName : Option String
+  /-- external leaf: `CrashReason` Display -/
+  lastError : Option String
+  deriving Repr, Inhabited
+
+structure UnloadedM where
+  base : Nat
+  size : Nat
+  name : String
+  codeId : String
+  deriving Repr, Inhabited
+
+structure HandleM where
+  handle : Nat
+  typeName : Option String
+  objectName : Option String
+  deriving Repr, Inhabited
+
+structure StateModel where
+  pid : Option Nat
+  /-- `HashMap`: unique keys, any order -/
+  certInfo : List (String × String)
+  exc : Option ExcInfo
+  assertion : Option String
+  requestingThread : Option Nat
+  threads : List ThreadM
+  sys : SysInfo
+  lsb : Option Lsb
+  /-- `HashMap` values in any order (unique names) -/
+  procLimits : Option (List ProcLimit)
+  macCrashInfo : Option (List MacRecord)
+  macBootArgs : Option (Option String)
+  modules : List ModuleM
+  unloaded : List UnloadedM
+  handles : Option (List HandleM)
+  symbolStats : List (String × Stats)
+  memoryMapCount : Option Nat
+  softErrors : Option Json
+  deriving Repr, Inhabited
+
+/-! ## 7. `print_json` -/
+
+def obind {α β : Type} (x : Outcome α) (f : α → Outcome β) : Outcome β :=
+  match x with
+  | .ok a => f a
+  | .panic s => .panic s
+
+def omapM {α β : Type} (f : α → Outcome β) : List α → Outcome (List β)
+  | [] => .ok []
+  | x :: xs => obind (f x) fun y => obind (omapM f xs) fun ys => .ok (y :: ys)
+
+/-- `minidump_common::utils::basename`: text after the last `/` or `\`. -/
+def basenameL : List Char → List Char → List Char
+  | [], acc => acc.reverse
+  | c :: r, acc => if c = '/' ∨ c = '\\' then basenameL r [] else basenameL r (c :: acc)
+def basename (s : String) : String := String.ofList (basenameL s.toList [])
+
+def lookupS {α : Type} (k : String) : List (String × α) → Option α
+  | [] => none
+  | (k', v) :: r => if k = k' then some v else lookupS k r
+
+def strJ (s : String) : Json := .str s
+def optStr : Option String → Json := optJ .str
+def optNat : Option Nat → Json := optJ Json.nat
+
+/-- `u64 - u64` with overflow checks -/
+def checkedSub (site : String) (a b : Nat) : Outcome Nat :=
+  if a < b then .panic site else .ok (a - b)
+/-- `u64 + u64` with overflow checks -/
+def checkedAdd (site : String) (a b : Nat) : Outcome Nat :=
+  if a + b > U64MAX then .panic site else .ok (a + b)
+
+def inlineJson (i : InlineM) : Json :=
+  mkObj [("function", .str i.function), ("file", optStr i.file), ("line", optNat i.line)]
+
+def unloadedRefJson (pw : PW) (m : String × List Nat) : Json :=
+  mkObj [("module", .str m.1), ("offsets", .arr (m.2.map fun o => .str (hexAddr pw o)))]
+
+/-- one entry of `frames` (process_state.rs:1075-1121) -/
+def frameJson (pw : PW) (idx : Nat) (f : FrameM) : Outcome Json :=
+  obind (match f.module with
+         | none => .ok .null
+         | some (_, base) =>
+           obind (checkedSub "module_offset: frame.instruction - module.raw.base_of_image" f.instruction base)
+             fun o => .ok (.str (hexAddr pw o))) fun moduleOffset =>
+  obind (match f.functionBase with
+         | none => .ok .null
+         | some fb =>
+           obind (checkedSub "function_offset: frame.instruction - func_base" f.instruction fb)
+             fun o => .ok (.str (hexAddr pw o))) fun functionOffset =>
+  .ok (mkObj [
+    ("frame", .nat idx),
+    ("module", optJ (fun m : String × Nat => .str (basename m.1)) f.module),
+    ("function", optStr f.functionName),
+    ("file", optStr f.sourceFile),
+    ("line", optNat f.sourceLine),
+    ("offset", .str (hexAddr pw f.instruction)),
+    ("inlines", if f.inlines.isEmpty then .null else .arr (f.inlines.map inlineJson)),
+    ("module_offset", moduleOffset),
+    ("unloaded_modules", if f.unloaded.isEmpty then .null else .arr (f.unloaded.map (unloadedRefJson pw))),
+    ("function_offset", functionOffset),
+    ("missing_symbols", .bool f.functionName.isNone),
+    ("trust", .str f.trust.name)])
+
+def framesJson (pw : PW) : Nat → List FrameM → Outcome (List Json)
+  | _, [] => .ok []
+  | i, f :: fs => obind (frameJson pw i f) fun j => obind (framesJson pw (i + 1) fs) fun js => .ok (j :: js)
+
+/-- one entry of `threads` (process_state.rs:1068-1122) -/
+def threadJson (pw : PW) (t : ThreadM) : Outcome Json :=
+  obind (framesJson pw 0 t.frames) fun frames =>
+  .ok (mkObj [
+    ("frame_count", .nat t.frames.length),
+    ("last_error_value", optStr t.lastError),
+    ("thread_name", optStr t.threadName),
+    ("thread_id", .nat t.threadId),
+    ("frames", .arr frames)])
+
+/-- `json_registers` (process_state.rs:512-530) with `CpuContext::format_register` -/
+def registersJson (c : RegCtx) : Json :=
+  mkObj ((c.gpr.filter fun r => match c.valid with
+                                | none => true
+                                | some names => names.contains r.1).map
+         fun r => (r.1, .str (hexPad (c.regSize * 2) r.2)))
+
+def defaultStats : Stats := ⟨none, false, false, none⟩
+
+/-- one entry of `modules` (process_state.rs:1017-1065) -/
+def moduleJson (pw : PW) (certInfo : List (String × String)) (symbolStats : List (String × Stats))
+    (m : ModuleM) : Outcome Json :=
+  let name := basename m.name
+  let st := lookupS name symbolStats
+  let hadStats := st.isSome
+  let stats := st.getD defaultStats
+  let dbg : String × String :=
+    match stats.extra with
+    | some (df, did) => (df, did)
+    | none => (m.debugFile.getD "", m.debugId)
+  obind (checkedAdd "modules.end_addr: base_of_image + size_of_image" m.base m.size) fun endAddr =>
+  .ok (mkObj [
+    ("base_addr", .str (hexAddr pw m.base)),
+    ("debug_file", .str (basename dbg.1)),
+    ("debug_id", .str dbg.2),
+    ("end_addr", .str (hexAddr pw endAddr)),
+    ("filename", .str name),
+    ("code_id", .str m.codeId),
+    ("version", optStr m.version),
+    ("cert_subject", optStr (lookupS name certInfo)),
+    ("missing_symbols", .bool (hadStats && !stats.loaded)),
+    ("loaded_symbols", .bool stats.loaded),
+    ("corrupt_symbols", .bool stats.corrupt),
+    ("symbol_url", optStr stats.url)])
+
+/-- one entry of `unloaded_modules` (process_state.rs:1124-1130) -/
+def unloadedJson (pw : PW) (certInfo : List (String × String)) (m : UnloadedM) : Outcome Json :=
+  obind (checkedAdd "unloaded_modules.end_addr: base_of_image + size_of_image" m.base m.size) fun endAddr =>
+  .ok (mkObj [
+    ("base_addr", .str (hexAddr pw m.base)),
+    ("code_id", .str m.codeId),
+    ("end_addr", .str (hexAddr pw endAddr)),
+    ("filename", .str m.name),
+    ("cert_subject", optStr (lookupS m.name certInfo))])
+
+def AccessType.lower : AccessType → String
+  | .read => "read" | .write => "write" | .readWrite => "readwrite" | .underivable => "underivable"
+
+def memAccessJson (pw : PW) (a : MemAccess) : Json :=
+  let m0 := [("address", Json.str (hexAddr pw a.address)), ("size", optNat a.size)]
+  let m1 := if a.guard then m0 ++ [("is_likely_guard_page", .bool true)] else m0
+  let m2 := if a.ty ≠ .underivable then m1 ++ [("access_type", .str a.ty.lower)] else m1
+  mkObj m2
+
+def ipUpdateJson (pw : PW) : IpUpdate → Json
+  | .noUpdate => .null
+  | .update addr guard =>
+    mkObj ([("address", Json.str (hexAddr pw addr))] ++
+           (if guard then [("is_likely_guard_page", .bool true)] else []))
+
+def bitFlipJson (pw : PW) (b : BitFlip) : Json :=
+  mkObj [
+    ("address", .str (hexAddr pw b.address)),
+    ("source_register", optStr b.sourceRegister),
+    ("details", mkObj [
+      ("was_non_canonical", .bool b.wasNonCanonical),
+      ("is_null", .bool b.isNull),
+      ("was_low", .bool b.wasLow),
+      ("nearby_registers", .nat b.nearby),
+      ("poison_registers", .bool b.poison)]),
+    ("confidence", optJ .num b.confidence)]
+
+def adjustedJson (pw : PW) : Adjusted → Json
+  | .nonCanonical a => mkObj [("kind", .str "non-canonical"), ("address", .str (hexAddr pw a))]
+  | .nullOffset o => mkObj [("kind", .str "null-pointer"), ("offset", .str (hexAddr pw o))]
+
+/-- `crash_info` (process_state.rs:906-967) -/
+def crashInfoJson (pw : PW) (s : StateModel) : Json :=
+  mkObj [
+    ("type", optJ (fun e : ExcInfo => .str e.reason) s.exc),
+    ("address", optJ (fun e : ExcInfo => .str (hexAddr pw e.address)) s.exc),
+    ("adjusted_address", optJ (fun e : ExcInfo => optJ (adjustedJson pw) e.adjusted) s.exc),
+    ("instruction", optJ (fun e : ExcInfo => optStr e.instruction) s.exc),
+    ("memory_accesses", optJ (fun e : ExcInfo =>
+        optJ (fun l : List MemAccess => .arr (l.map (memAccessJson pw))) e.memAccesses) s.exc),
+    ("instruction_pointer_update", optJ (fun e : ExcInfo => optJ (ipUpdateJson pw) e.ipUpdate) s.exc),
+    ("possible_bit_flips", optJ (fun e : ExcInfo =>
+        if e.bitFlips.isEmpty then .null else .arr (e.bitFlips.map (bitFlipJson pw))) s.exc),
+    ("crash_inconsistencies", optJ (fun e : ExcInfo =>
+        .arr (e.inconsistencies.map fun i => .str i.name)) s.exc),
+    ("crashing_thread", optNat s.requestingThread),
+    ("assertion", optStr s.assertion)]
+
+def systemInfoJson (s : SysInfo) : Json :=
+  mkObj [
+    ("os", .str s.os.longName),
+    ("os_ver", optStr s.osVer),
+    ("cpu_arch", .str s.cpu.name),
+    ("cpu_info", optStr s.cpuInfo),
+    ("cpu_count", .nat s.cpuCount),
+    ("cpu_microcode_version", optJ (fun n : Nat => .str (hexPad 0 n)) s.microcode)]
+
+def limitJson : Limit → Json
+  | .err => .str "err"
+  | .unlimited => .str "unlimited"
+  | .limited n => .nat n
+
+/-- insertion sort by name (`sort_by(|a, b| a.0.cmp(b.0))`; names are unique map keys) -/
+def insertLimit (l : ProcLimit) : List ProcLimit → List ProcLimit
+  | [] => [l]
+  | x :: xs => if x.name ≤ l.name then x :: insertLimit l xs else l :: x :: xs
+def sortLimits (ls : List ProcLimit) : List ProcLimit := ls.foldr insertLimit []
+
+def procLimitsJson (ls : List ProcLimit) : Json :=
+  mkObj [("limits", .arr ((sortLimits ls).map fun l =>
+    mkObj [("name", .str l.name), ("soft", limitJson l.soft), ("hard", limitJson l.hard),
+           ("unit", .str l.unit)]))]
+
+def macRecordJson (pw : PW) (r : MacRecord) : Json :=
+  let hx : Option Nat → Json := optJ fun n => .str (hexAddr pw n)
+  mkObj [
+    ("thread", hx r.thread), ("dialog_mode", hx r.dialogMode), ("abort_cause", hx r.abortCause),
+    ("module", optStr r.modulePath), ("message", optStr r.message),
+    ("signature_string", optStr r.signature), ("backtrace", optStr r.backtrace),
+    ("message2", optStr r.message2)]
+
+def handleJson (h : HandleM) : Json :=
+  mkObj [("handle", .nat h.handle), ("type_name", optStr h.typeName),
+         ("object_name", optStr h.objectName)]
+
+/-- the `crashing_thread` copy (process_state.rs:1138-1171): the indexed entry of `threads`
+    with `registers` inserted into its first frame and `threads_index` added. `none`: one of
+    the `unwrap`s / the frame-0 index would panic (cannot happen on `threadJson` output). -/
+def crashingCopy (thread : Json) (regs : Json) (idx : Nat) : Option Json :=
+  match thread with
+  | .obj kvs =>
+    match getKV "frames" kvs with
+    | some (.arr (.obj f0 :: rest)) =>
+      some (.obj (insertKV "threads_index" (.nat idx)
+        (insertKV "frames" (.arr (.obj (insertKV "registers" regs f0) :: rest)) kvs)))
+    | _ => none
+  | _ => none
+
+/-- the members of the `json!({…})` literal (process_state.rs:891-1136) -/
+def baseFields (pw : PW) (s : StateModel) (modules threads unloaded : List Json) :
+    List (String × Json) := [
+    ("status", .str "OK"),
+    ("system_info", systemInfoJson s.sys),
+    ("crash_info", crashInfoJson pw s),
+    ("lsb_release", optJ (fun l : Lsb => mkObj [("id", .str l.id), ("release", .str l.release),
+        ("codename", .str l.codename), ("description", .str l.description)]) s.lsb),
+    ("proc_limits", optJ procLimitsJson s.procLimits),
+    ("soft_errors", optJ id s.softErrors),
+    ("mac_crash_info", optJ (fun rs : List MacRecord => mkObj [("num_records", .nat rs.length),
+        ("records", .arr (rs.map (macRecordJson pw)))]) s.macCrashInfo),
+    ("mac_boot_args", optJ optStr s.macBootArgs),
+    ("linux_memory_map_count", optNat s.memoryMapCount),
+    ("main_module", .nat 0),
+    ("modules_contains_cert_info", .bool (!s.certInfo.isEmpty)),
+    ("modules", .arr modules),
+    ("pid", optNat s.pid),
+    ("thread_count", .nat s.threads.length),
+    ("threads", .arr threads),
+    ("unloaded_modules", .arr unloaded),
+    ("handles", optJ (fun hs : List HandleM => .arr (hs.map handleJson)) s.handles)]
+
+/-- the second half of `print_json` (process_state.rs:1138-1171): add the `crashing_thread` copy -/
+def addCrashing (s : StateModel) (threads : List Json) (output : List (String × Json)) : Outcome Json :=
+  match s.requestingThread with
+  | none => .ok (mkObj output)
+  | some i =>
+    match s.threads[i]?, threads[i]? with
+    | some t, some tj =>
+      match t.frames with
+      | [] => .ok (mkObj output)
+      | f0 :: _ =>
+        match crashingCopy tj (registersJson f0.ctx) i with
+        | some c => .ok (mkObj (output ++ [("crashing_thread", c)]))
+        | none => .panic "crashing_thread: unwrap on the threads entry"
+    | _, _ => .panic "self.threads[requesting_thread]: index out of bounds"
+
+/-- `ProcessState::print_json` up to the final `to_writer`: the `serde_json::Value`. -/
+def printJson (s : StateModel) : Outcome Json :=
+  let pw := s.sys.cpu.pw
+  obind (omapM (moduleJson pw s.certInfo s.symbolStats) s.modules) fun modules =>
+  obind (omapM (threadJson pw) s.threads) fun threads =>
+  obind (omapM (unloadedJson pw s.certInfo) s.unloaded) fun unloaded =>
+  addCrashing s threads (baseFields pw s modules threads unloaded)
+
+/-! ## 8. the documented schema (json-schema.md), in ONE place
+
+  Reading of the document (DESIGN.md §6.C15 "Scope of Conforms"):
+  * every documented field may be absent or `null`; a present, non-null documented field must
+    have the documented type; fields the document does not mention are allowed (and reported
+    by `undocumented`);
+  * `<u32>`/`<u64>`: a non-negative integer token below 2^32 / 2^64 (`<u64>` is used by the
+    document for `handles[].handle` only, since /repo b67afac); `<f32>`: any number token;
+  * `<hexstring>` for addresses/offsets (`hexA`): `0x` + lower-case hex digits, at least the
+    platform's pointer width (8 digits on 32-bit CPUs, 16 otherwise), value below 2^64;
+    `<hexstring>` that is not an address (`hexN`: microcode version, registers — "formatted
+    to [the register's] natural width"): `0x` + at least one lower-case hex digit;
+  * enumerations are closed over what the document lists PLUS the values the code can emit
+    today that the document forgot (marked `-- undocumented` below); `system_info.os` is one
+    of the listed names or a `<hexstring>`;
+  * `unloaded_modules[].offsets`: "never empty, no duplicates, sorted".
+-/
+
+inductive Ty where
+  | u32 | u64 | f32 | bool | str
+  | hexA            -- address-like hex string, padded to the platform width
+  | hexN            -- other hex string
+  | enum (vals : List String) (orHex : Bool)
+  | arr (elem : Ty)
+  | offsets         -- non-empty, strictly ascending array of `hexA`
+  | regs            -- object: register name ↦ `hexN`
+  | obj (fields : List (String × Ty))
+  | any
+  deriving Repr, Inhabited
+
+def trustTy : Ty := .enum ["context", "cfi", "frame_pointer", "scan",
+  "cfi_scan", "prewalked", "non"] false          -- last three: undocumented
+
+def frameFields : List (String × Ty) := [
+  ("frame", .u32), ("trust", trustTy), ("registers", .regs), ("offset", .hexA),
+  ("module", .str), ("module_offset", .hexA),
+  ("unloaded_modules", .arr (.obj [("module", .str), ("offsets", .offsets)])),
+  ("inlines", .arr (.obj [("function", .str), ("file", .str), ("line", .u32)])),
+  ("function", .str), ("function_offset", .hexA), ("file", .str), ("line", .u32),
+  ("missing_symbols", .bool)]
+
+def threadFields : List (String × Ty) := [
+  ("thread_name", .str), ("thread_id", .u32), ("last_error_value", .str),
+  ("frame_count", .u32), ("frames", .arr (.obj frameFields))]
+
+def schema : Ty := .obj [
+  ("status", .str),
+  ("pid", .u32),
+  ("crash_info", .obj [
+    ("type", .str),
+    ("address", .hexA),
+    ("adjusted_address", .obj [("kind", .str), ("address", .hexA), ("offset", .hexA)]),
+    ("instruction", .str),
+    ("memory_accesses", .arr (.obj [("address", .hexA), ("size", .u32),
+        ("is_likely_guard_page", .bool), ("access_type", .enum ["read", "write", "readwrite"] false)])),
+    ("instruction_pointer_update", .obj [("address", .hexA), ("is_likely_guard_page", .bool)]),
+    ("possible_bit_flips", .arr (.obj [("address", .hexA),
+        ("details", .obj [("was_non_canonical", .bool), ("is_null", .bool), ("was_low", .bool),
+                          ("poison_registers", .bool), ("nearby_registers", .u32)]),
+        ("confidence", .f32), ("source_register", .str)])),
+    ("crash_inconsistencies", .arr (.enum ["int_div_by_zero_not_possible",
+        "priv_instruction_crash_without_priv_instruction", "non_canonical_address_falsely_reported",
+        "access_violation_when_access_allowed", "crashing_access_not_found_in_memory_accesses"] false)),
+    ("crashing_thread", .u32),
+    ("assertion", .str)]),
+  ("system_info", .obj [
+    ("os", .enum ["Windows NT", "Mac OS X", "iOS", "Linux", "Solaris", "Android", "PS3", "NaCl"] true),
+    ("os_ver", .str),
+    ("cpu_arch", .enum ["x86", "amd64", "ppc", "ppc64", "sparc", "arm", "arm64", "unknown",
+                        "mips", "mips64"] false),        -- last two: undocumented
+    ("cpu_info", .str),
+    ("cpu_count", .u32),
+    ("cpu_microcode_version", .hexN)]),
+  ("linux_memory_map_count", .u32),
+  ("thread_count", .u32),
+  ("threads", .arr (.obj threadFields)),
+  ("crashing_thread", .obj (("threads_index", .u32) :: threadFields)),
+  ("main_module", .u32),
+  ("modules_contains_cert_info", .bool),
+  ("modules", .arr (.obj [
+    ("base_addr", .hexA), ("end_addr", .hexA), ("debug_file", .str), ("debug_id", .str),
+    ("filename", .str), ("code_id", .str), ("version", .str), ("cert_subject", .str),
+    ("missing_symbols", .bool), ("loaded_symbols", .bool), ("corrupt_symbols", .bool),
+    ("symbol_url", .str)])),
+  ("unloaded_modules", .arr (.obj [
+    ("base_addr", .hexA), ("end_addr", .hexA), ("code_id", .str), ("filename", .str),
+    ("cert_subject", .str)])),
+  ("handles", .arr (.obj [("handle", .u64), ("type_name", .str), ("object_name", .str)])),
+  ("lsb_release", .obj [("id", .str), ("release", .str), ("codename", .str), ("description", .str)]),
+  ("mac_crash_info", .obj [
+    ("num_records", .u32),
+    ("records", .arr (.obj [("thread", .hexA), ("dialog_mode", .hexA), ("abort_cause", .hexA),
+        ("module", .str), ("message", .str), ("signature_string", .str), ("backtrace", .str),
+        ("message2", .str)]))]),
+  ("mac_boot_args", .str),
+  ("soft_errors", .arr (.obj []))]
+
+/-- `0x` + ≥ `w` lower-case hex digits (≥ 1), value < 2^64 -/
+def isHexString (w : Nat) (s : String) : Bool :=
+  match s.toList with
+  | '0' :: 'x' :: ds => !ds.isEmpty && ds.all isHexLower && w ≤ ds.length && hexValue ds ≤ U64MAX
+  | _ => false
+
+def isU32 (n : JNum) : Bool := !n.neg && n.frac.isEmpty && n.exp.isNone && n.int ≤ U32MAX
+def isU64 (n : JNum) : Bool := !n.neg && n.frac.isEmpty && n.exp.isNone && n.int ≤ U64MAX
+
+def hexStringValue (j : Json) : Nat :=
+  match j with
+  | .str s => hexValue (s.toList.drop 2)
+  | _ => 0
+
+def ascending : List Nat → Bool
+  | [] => true
+  | [_] => true
+  | a :: b :: r => a < b && ascending (b :: r)
+
+/-- first `some` of `f x i` over the elements with their positions -/
+def firstSome {α : Type} (f : α → Nat → Option String) : List α → Nat → Option String
+  | [], _ => none
+  | x :: xs, i =>
+    match f x i with
+    | some q => some q
+    | none => firstSome f xs (i + 1)
+
+def isHexJ (w : Nat) : Json → Bool
+  | .null => true
+  | .str s => isHexString w s
+  | _ => false
+
+mutual
+/-- first offending path (`none`: the value has the documented type); `w` = platform digits -/
+def check (w : Nat) : Ty → Json → String → Option String
+  | _, .null, _ => none
+  | .any, _, _ => none
+  | .u32, .num n, p => if isU32 n then none else some p
+  | .u64, .num n, p => if isU64 n then none else some p
+  | .f32, .num _, _ => none
+  | .bool, .bool _, _ => none
+  | .str, .str _, _ => none
+  | .hexA, .str s, p => if isHexString w s then none else some p
+  | .hexN, .str s, p => if isHexString 1 s then none else some p
+  | .enum vals orHex, .str s, p =>
+    if vals.contains s || (orHex && isHexString 1 s) then none else some p
+  | .arr t, .arr xs, p => firstSome (fun x i => check w t x (p ++ "[" ++ toString i ++ "]")) xs 0
+  | .offsets, .arr xs, p =>
+    if xs.all (isHexJ w) && !xs.isEmpty && ascending (xs.map hexStringValue) then none else some p
+  | .regs, .obj kvs, p => if kvs.all (fun kv => isHexJ 1 kv.2) then none else some p
+  | .obj fields, .obj kvs, p => checkFields w fields kvs p
+  | _, _, p => some p
+/-- schema-driven: every documented field, if present, has its type -/
+def checkFields (w : Nat) : List (String × Ty) → List (String × Json) → String → Option String
+  | [], _, _ => none
+  | (k, t) :: fs, kvs, p =>
+    match (match getKV k kvs with
+           | none => none
+           | some v => check w t v (p ++ "." ++ k)) with
+    | some q => some q
+    | none => checkFields w fs kvs p
+end
+
+/-- the platform's digit count, read off the document itself (`system_info.cpu_arch`) -/
+def widthOf (j : Json) : Nat :=
+  match (j.get "system_info").bind (Json.get "cpu_arch") with
+  | some (.str a) => if ["x86", "ppc", "sparc", "arm", "mips"].contains a then 8 else 16
+  | _ => 16
+
+def conformsAt (j : Json) : Option String :=
+  match j with
+  | .obj _ => check (widthOf j) schema j "$"
+  | _ => some "$"
+
+/-- **the schema predicate** -/
+def Conforms (j : Json) : Bool := (conformsAt j).isNone
+
+/-- top-level members the document does not mention (allowed; listed in the evidence) -/
+def undocumented (j : Json) : List String :=
+  match j, schema with
+  | .obj kvs, .obj fields => (kvs.map (·.1)).filter fun k => !(fields.map (·.1)).contains k
+  | _, _ => []
+
+/-! ## 9. line protocol
+
+  `json <state> [ck <hex compact> <hex pretty>]`
+      -> `M:<hex(compact json)|PANIC>` [` C:<parsed><conforms>[@path] U:<undocumented,> P:<0|1>`]
+  `jsonck <hex(json bytes)>` -> `parsed:<0|1> conforms:<0|1>[@path]`
+  The state is a token tree: `(` … `)` lists, atoms `-` (None), `n<dec>`, `s<hex utf-8>`,
+  `t`/`f`, `j<hex json text>`, bare enum tags.
+-/
+
+inductive Sx where
+  | atom (s : String)
+  | list (xs : List Sx)
+  deriving Repr, Inhabited
+
+/-- parse tokens into trees; returns the trees of the current level and the rest after `)` -/
+def sxParse : Nat → List String → List Sx → Option (List Sx × List String)
+  | 0, _, _ => none
+  | _ + 1, [], acc => some (acc.reverse, [])
+  | fuel + 1, t :: ts, acc =>
+    if t = "(" then
+      match sxParse fuel ts [] with
+      | some (inner, rest) => sxParse fuel rest (.list inner :: acc)
+      | none => none
+    else if t = ")" then some (acc.reverse, ts)
+    else sxParse fuel ts (.atom t :: acc)
+
+namespace Dec
+open Proto
+
+def str : Sx → Option String
+  | .atom a =>
+    if a.startsWith "s" then
+      let h := (a.drop 1).toString
+      if h.isEmpty then some "" else
+      match unhex h with
+      | some bs => String.fromUTF8? bs.toByteArray
+      | none => none
+    else none
+  | _ => none
+
+def nat : Sx → Option Nat
+  | .atom a => if a.startsWith "n" then (a.drop 1).toString.toNat? else none
+  | _ => none
+
+def bool : Sx → Option Bool
+  | .atom "t" => some true
+  | .atom "f" => some false
+  | _ => none
+
+def json : Sx → Option Json
+  | .atom a =>
+    if a.startsWith "j" then
+      match unhex (a.drop 1).toString with
+      | some bs => parseBytes bs.toByteArray
+      | none => none
+    else none
+  | _ => none
+
+def jnum (x : Sx) : Option JNum :=
+  match json x with
+  | some (.num n) => some n
+  | _ => none
+
+def opt {α : Type} (f : Sx → Option α) : Sx → Option (Option α)
+  | .atom "-" => some none
+  | x => (f x).map some
+
+def list {α : Type} (f : Sx → Option α) : Sx → Option (List α)
+  | .list xs => xs.mapM f
+  | _ => none
+
+def os : Sx → Option Os
+  | .atom "windows" => some .windows | .atom "macos" => some .macos | .atom "ios" => some .ios
+  | .atom "linux" => some .linux | .atom "solaris" => some .solaris
+  | .atom "android" => some .android | .atom "ps3" => some .ps3 | .atom "nacl" => some .nacl
+  | .list [.atom "unknown", n] => (nat n).map Os.unknown
+  | _ => none
+
+def cpu : Sx → Option Cpu
+  | .atom "x86" => some .x86 | .atom "amd64" => some .amd64 | .atom "ppc" => some .ppc
+  | .atom "ppc64" => some .ppc64 | .atom "sparc" => some .sparc | .atom "arm" => some .arm
+  | .atom "arm64" => some .arm64 | .atom "mips" => some .mips | .atom "mips64" => some .mips64
+  | .atom "unknown" => some .unknown
+  | _ => none
+
+def sys : Sx → Option SysInfo
+  | .list [a, b, c, d, e, f, g] => do
+    some ⟨← os a, ← opt str b, ← opt str c, ← cpu d, ← opt str e, ← nat f, ← opt nat g⟩
+  | _ => none
+
+def adjusted : Sx → Option Adjusted
+  | .list [.atom "noncanonical", n] => (nat n).map .nonCanonical
+  | .list [.atom "nulloffset", n] => (nat n).map .nullOffset
+  | _ => none
+
+def accessType : Sx → Option AccessType
+  | .atom "read" => some .read | .atom "write" => some .write
+  | .atom "readwrite" => some .readWrite | .atom "underivable" => some .underivable
+  | _ => none
+
+def memAccess : Sx → Option MemAccess
+  | .list [a, b, c, d] => do some ⟨← nat a, ← opt nat b, ← bool c, ← accessType d⟩
+  | _ => none
+
+def ipUpdate : Sx → Option IpUpdate
+  | .atom "noupdate" => some .noUpdate
+  | .list [.atom "update", a, g] => do some (.update (← nat a) (← bool g))
+  | _ => none
+
+def bitFlip : Sx → Option BitFlip
+  | .list [a, b, c, d, e, f, g, h] => do
+    some ⟨← nat a, ← opt str b, ← bool c, ← bool d, ← bool e, ← nat f, ← bool g, ← opt jnum h⟩
+  | _ => none
+
+def inconsistency : Sx → Option Inconsistency
+  | .atom "intdiv" => some .intDivByZeroNotPossible
+  | .atom "priv" => some .privInstructionCrashWithoutPrivInstruction
+  | .atom "noncanon" => some .nonCanonicalAddressFalselyReported
+  | .atom "accessallowed" => some .accessViolationWhenAccessAllowed
+  | .atom "notfound" => some .crashingAccessNotFoundInMemoryAccesses
+  | _ => none
+
+def exc : Sx → Option ExcInfo
+  | .list [a, b, c, d, e, f, g, h] => do
+    some ⟨← str a, ← nat b, ← opt adjusted c, ← opt str d, ← opt (list memAccess) e,
+          ← opt ipUpdate f, ← list bitFlip g, ← list inconsistency h⟩
+  | _ => none
+
+def lsb : Sx → Option Lsb
+  | .list [a, b, c, d] => do some ⟨← str a, ← str b, ← str c, ← str d⟩
+  | _ => none
+
+def limit : Sx → Option Limit
+  | .atom "err" => some .err
+  | .atom "unlimited" => some .unlimited
+  | x => (nat x).map .limited
+
+def procLimit : Sx → Option ProcLimit
+  | .list [a, b, c, d] => do some ⟨← str a, ← limit b, ← limit c, ← str d⟩
+  | _ => none
+
+def macRecord : Sx → Option MacRecord
+  | .list [a, b, c, d, e, f, g, h] => do
+    some ⟨← opt nat a, ← opt nat b, ← opt nat c, ← opt str d, ← opt str e, ← opt str f,
+          ← opt str g, ← opt str h⟩
+  | _ => none
+
+def module : Sx → Option ModuleM
+  | .list [a, b, c, d, e, f, g] => do
+    some ⟨← nat a, ← nat b, ← str c, ← opt str d, ← str e, ← str f, ← opt str g⟩
+  | _ => none
+
+def pairSS : Sx → Option (String × String)
+  | .list [a, b] => do some (← str a, ← str b)
+  | _ => none
+
+def stats : Sx → Option (String × Stats)
+  | .list [k, a, b, c, d] => do some (← str k, ⟨← opt str a, ← bool b, ← bool c, ← opt pairSS d⟩)
+  | _ => none
+
+def inline : Sx → Option InlineM
+  | .list [a, b, c] => do some ⟨← str a, ← opt str b, ← opt nat c⟩
+  | _ => none
+
+def trust : Sx → Option Trust
+  | .atom "none" => some .none | .atom "scan" => some .scan | .atom "cfi_scan" => some .cfiScan
+  | .atom "frame_pointer" => some .framePointer | .atom "cfi" => some .cfi
+  | .atom "prewalked" => some .preWalked | .atom "context" => some .context
+  | _ => none
+
+def pairSN : Sx → Option (String × Nat)
+  | .list [a, b] => do some (← str a, ← nat b)
+  | _ => none
+
+def pairSNs : Sx → Option (String × List Nat)
+  | .list [a, b] => do some (← str a, ← list nat b)
+  | _ => none
+
+def regCtx : Sx → Option RegCtx
+  | .list [a, b, c] => do some ⟨← nat a, ← list pairSN b, ← opt (list str) c⟩
+  | _ => none
+
+def frame : Sx → Option FrameM
+  | .list [a, b, c, d, e, f, g, h, i, j] => do
+    some ⟨← nat a, ← opt pairSN b, ← list pairSNs c, ← opt str d, ← opt nat e, ← opt str f,
+          ← opt nat g, ← list inline h, ← trust i, ← regCtx j⟩
+  | _ => none
+
+def thread : Sx → Option ThreadM
+  | .list [a, b, c, d] => do some ⟨← list frame a, ← nat b, ← opt str c, ← opt str d⟩
+  | _ => none
+
+def unloaded : Sx → Option UnloadedM
+  | .list [a, b, c, d] => do some ⟨← nat a, ← nat b, ← str c, ← str d⟩
+  | _ => none
+
+def handle : Sx → Option HandleM
+  | .list [a, b, c] => do some ⟨← nat a, ← opt str b, ← opt str c⟩
+  | _ => none
+
+def bootArgs : Sx → Option (Option String)
+  | .list [a] => opt str a
+  | _ => none
+
+def state : List Sx → Option StateModel
+  | [a, b, c, d, e, f, g, h, i, j, k, l, m, n, o, p, q] => do
+    some ⟨← opt nat a, ← list pairSS b, ← opt exc c, ← opt str d, ← opt nat e, ← list thread f,
+          ← sys g, ← opt lsb h, ← opt (list procLimit) i, ← opt (list macRecord) j,
+          ← opt bootArgs k, ← list module l, ← list unloaded m, ← opt (list handle) n,
+          ← list stats o, ← opt nat p, ← opt json q⟩
+  | _ => none
+
+end Dec
+
+def ckAnswer (compact : List UInt8) : String :=
+  match parseBytes compact.toByteArray with
+  | none => "parsed:0 conforms:0"
+  | some j =>
+    match conformsAt j with
+    | none => "parsed:1 conforms:1"
+    | some p => "parsed:1 conforms:0@" ++ p
 
 /-- line-protocol entry point of this model (engine(s): json, jsonck) -/
-def handle (_engine : String) (_args : List String) : String := "bad-op"
+def handle (engine : String) (args : List String) : String :=
+  if engine = "jsonck" then
+    match args with
+    | [h] =>
+      match Proto.unhex h with
+      | some bs => ckAnswer bs
+      | none => "bad-op"
+    | _ => "bad-op"
+  else if engine = "json" then
+    -- split off the optional `ck <hex> <hex>` suffix
+    let (stTokens, ck) : List String × Option (String × String) :=
+      match args.reverse with
+      | p :: c :: "ck" :: rest => (rest.reverse, some (c, p))
+      | _ => (args, none)
+    match sxParse (stTokens.length + 1) stTokens [] with
+    | some (sxs, []) =>
+      match Dec.state sxs with
+      | none => "bad-op"
+      | some s =>
+        let m := match printJson s with
+          | .panic _ => "M:PANIC"
+          | .ok j => "M:" ++ Proto.hex (renderBytes j).toList
+        match ck with
+        | none => m
+        | some (c, p) =>
+          match Proto.unhex c, Proto.unhex p with
+          | some cb, some pb =>
+            match parseBytes cb.toByteArray with
+            | none => m ++ " C:00 U: P:0"
+            | some j =>
+              let c := match conformsAt j with
+                | none => "11"
+                | some path => "10@" ++ path
+              let u := ",".intercalate (undocumented j)
+              let pp := match parseBytes pb.toByteArray with
+                | some j' => if Json.beq j j' then "1" else "0"
+                | none => "0"
+              m ++ " C:" ++ c ++ " U:" ++ u ++ " P:" ++ pp
+          | _, _ => "bad-op"
+    | _ => "bad-op"
+  else "bad-op"
 
 end MdModel.Json
